@@ -34,6 +34,14 @@ for f in sorted(glob.glob("/verif/seeded/*/meta.json"), key=lambda x: (x.split("
     except Exception:
         pass
     ok = all(m.get("confirmed", {}).values())
+    own = sid[:3]
+    NOTE = {
+        "C02-r2": " - not a C02 violation as stated (the 200 is self-consistent); reported by C03",
+        "C07-r3": " - **not detected, by design** (needs a stream that also misreports its size_hint; see 12.4)",
+        "C11-r3": " - **not detected, by design** (equivalent under the stated schedule model; see 12.4)",
+    }
+    if own not in m.get("caught_by", []):
+        notes = (notes or "") + NOTE.get(sid, " - NOT CAUGHT BY ITS OWN CHECK")
     out.append(f"| {sid} | {notes or 'see seeded/' + sid + '/NOTES.md'}{'' if ok else ' (NOT CONFIRMED)'} | {', '.join(m.get('caught_by', []))} |")
 out.append("")
 p = "/verif/DESIGN.md"; s = open(p).read()
